@@ -182,6 +182,19 @@ func (fr *Frame) callSiteObligations(b *ssa.BasicBlock, c *ssa.CallCommon, st *S
 func (fr *Frame) callCommon(b *ssa.BasicBlock, v ssa.Value, c *ssa.CallCommon, st *State, reach string, pos token.Pos) *Val {
 	vc := fr.vc
 	fr.callSiteObligations(b, c, st, reach, pos)
+	if vc.locksOn && !fr.pure {
+		var cc *Contract
+		if c.IsInvoke() {
+			cc = vc.eng.ifaceContracts[c.Method]
+		} else if f, ok := c.Value.(*ssa.Function); ok {
+			cc = vc.eng.contracts[f]
+		}
+		if cc != nil && cc.HasAcquires {
+			vc.orderObl(fr, st, cc.Acquires, "call of "+cc.Key, reach, pos)
+		} else if c.IsInvoke() && vc.lockObls {
+			vc.trust("lock order across calls of interface methods without an `acquires` contract (table clients) is not checked: it rests on the registration discipline that a table's clients take only locks above the table's own")
+		}
+	}
 	if c.IsInvoke() {
 		return fr.invoke(b, c, st, reach, pos)
 	}
@@ -254,6 +267,9 @@ func (fr *Frame) callFunc(b *ssa.BasicBlock, f *ssa.Function, c *ssa.CallCommon,
 	}
 	if strings.HasPrefix(name, "verif_all[") {
 		return fr.quantifierAll(c, args, st, reach)
+	}
+	if strings.HasPrefix(name, "verif_wheld[") || strings.HasPrefix(name, "verif_rheld[") || strings.HasPrefix(name, "verif_held[") {
+		return fr.heldPredicate(name, args, st)
 	}
 	if strings.HasPrefix(name, "verif_chclosed[") {
 		if v, ok := fr.ghostPredicate("verif_chclosed", args, st); ok {
@@ -450,6 +466,9 @@ func (fr *Frame) havocCall(b *ssa.BasicBlock, f *ssa.Function, c *ssa.CallCommon
 	if m.all {
 		vc.note("callee with unbounded effects: " + f.String())
 	}
+	if vc.locksOn && vc.lockObls && inModule(f) && vc.eng.takesLocks(f, 0, map[*ssa.Function]bool{}) {
+		vc.note("callee " + f.String() + " takes locks but is neither inlined nor under a lock contract: assumed to leave them as found, its place in the lock order is not checked")
+	}
 	vc.havocMods(st, m)
 	return packResults(c, fr.freshResults(c, st, "res_"+f.Name()))
 }
@@ -641,6 +660,9 @@ func (fr *Frame) applyContract(b *ssa.BasicBlock, ct *Contract, c *ssa.CallCommo
 			// far may have changed, except at pre-existing objects outside the frame
 			vc.bumpNext(st)
 			for _, k := range sortedKeys(vc.heapSort) {
+				if strings.HasPrefix(k, "Gl|") {
+					continue // lock state: calls are lock-neutral (locks.go)
+				}
 				if strings.HasPrefix(k, "G|") || strings.HasPrefix(k, "Gh|") {
 					if !(ct.NoConn && strings.HasPrefix(k, "Gh|")) {
 						vc.havocHeap(st, k, "", nil)
